@@ -22,6 +22,7 @@ type gen struct {
 	kindsOff     map[string]bool
 	writerFaults float64
 	thorough     bool
+	shared       int  // number of shared values of the plan (shared.go)
 	typeStorm    bool // many operands of many distinct Go types (per-type caches fill and turn over)
 }
 
@@ -195,7 +196,7 @@ func (g *gen) val(depth int, top bool) Val {
 		}
 		return Val{K: k, V: []Val{g.val(depth+1, false)}}
 	case x < 68 && depth < g.maxDepth+1:
-		switch g.r.Intn(5) {
+		switch g.r.Intn(7) {
 		case 0:
 			n := g.r.Intn(4)
 			v := Val{K: "slice"}
@@ -223,12 +224,22 @@ func (g *gen) val(depth int, top bool) Val {
 				v.V = []Val{g.val(depth+1, false)}
 			}
 			return v
-		default:
+		case 4:
 			if top {
 				v := Val{K: "pstruct", I: int64(g.r.Intn(50)), S: Str(g.payload())}
 				return v
 			}
 			return Val{K: "ints", V: []Val{{K: "int", I: 1}, {K: "int", I: -7}}}
+		case 5:
+			// reachable through an unexported field only: printed by
+			// reflection, no method of the value may be called
+			return Val{K: "ustruct", I: int64(g.r.Intn(50)), V: []Val{g.val(depth+1, false)}}
+		default:
+			v := Val{K: "umap", S: Str(g.payload())}
+			for i, n := 0, g.r.Intn(3); i < n; i++ {
+				v.V = append(v.V, g.val(depth+1, false))
+			}
+			return v
 		}
 	case x < 72:
 		return Val{K: g.pick([]string{"nilstringer", "nilerror", "typednilerr", "goerr"}), S: Str(g.payload())}
@@ -462,6 +473,9 @@ var opKindsC12 = []string{"sprint", "sprint", "sprintf", "sprintf", "sprintf", "
 
 // op generates one op of the general workload.
 func (g *gen) op(depth int) Op {
+	if g.shared > 0 && g.chance(0.3) {
+		return g.sharedOp(depth)
+	}
 	k := g.pick(opKindsC12)
 	for g.kindsOff[k] {
 		k = g.pick(opKindsC12)
@@ -642,6 +656,16 @@ func generate(prop string, seed int64, tier string) *Plan {
 		}
 	}
 	g.kindsOff["sprintf"] = false
+	if prop == "C12" && g.chance(0.5) {
+		// values that several tasks print at the same time
+		g.shared = 1 + g.r.Intn(3)
+		for i := 0; i < g.shared; i++ {
+			p.Shared = append(p.Shared, g.sharedSpec())
+		}
+		if nt < 2 {
+			nt = 2 + g.r.Intn(3)
+		}
+	}
 	if prop == "C13" {
 		p.Cfg.Sink = true
 	}
